@@ -55,17 +55,42 @@ Proposer(r) == ProposerSeq[r + 1]
 FreshValue(n) == "B" \o n
 Valid(v) == v \notin InvalidValues
 
-\* ------------------------------------------------------------------ vote sets
-EmptyVS == [v \in Vals |-> None]
-Voters(vs)      == {v \in Vals : vs[v] # None}
-VotersFor(vs,x) == {v \in Vals : vs[v] = x}
-\* VoteSet.TwoThirdsMajority: (only first votes count, conflicting votes are rejected, so at
-\* most one value can reach the quorum and "first quorum seen" is determined by the votes)
-Maj23(vs) == LET xs == {x \in {vs[v] : v \in Vals} \ {None} : IsQuorum(SumPower(VotersFor(vs, x)))}
-             IN IF xs = {} THEN None ELSE CHOOSE x \in xs : TRUE
-HasMaj23(vs) == Maj23(vs) # None
-AnyQ(vs)     == IsTwoThirdsAny(SumPower(Voters(vs)))
+\* ------------------------------------------------------------------ vote sets (types/vote_set.go)
+\* votes : the primary vote per validator (VoteSet.votes)            -- what is gossiped / put in a commit
+\* by    : {<<block, validator>>}  votes recorded per block (VoteSet.votesByBlock)
+\* pm    : {<<peer, block>>}       +2/3 claims received from peers (VoteSet.peerMaj23s); a conflicting
+\*                                 vote is only recorded for a block that some peer has claimed
+\* maj   : the FIRST block whose recorded votes crossed the quorum (VoteSet.maj23), None if none
+EmptyVS == [votes |-> [v \in Vals |-> None], by |-> {}, pm |-> {}, maj |-> None]
+Voters(vs)     == {v \in Vals : vs.votes[v] # None}
+ByFor(vs, x)   == {p[2] : p \in {q \in vs.by : q[1] = x}}
+Claimed(vs, x) == \E c \in vs.pm : c[2] = x
+Maj23(vs)    == vs.maj                                   \* VoteSet.TwoThirdsMajority
+HasMaj23(vs) == vs.maj # None
+AnyQ(vs)     == IsTwoThirdsAny(SumPower(Voters(vs)))     \* VoteSet.HasTwoThirdsAny (sum of first votes)
 HasAll(vs)   == Voters(vs) = Vals
+
+\* VoteSet.addVote / addVerifiedVote for a verified vote of `src` for `val`: [vs, added]
+VSAdd(vs, src, val) ==
+  IF <<val, src>> \in vs.by \/ vs.votes[src] = val THEN [vs |-> vs, added |-> FALSE]        \* duplicate
+  ELSE
+  LET conflicting == vs.votes[src] # None
+      \* a conflicting vote for the block that already has the majority replaces the primary entry
+      votes1 == IF conflicting
+                THEN (IF vs.maj # None /\ vs.maj = val THEN [vs.votes EXCEPT ![src] = val] ELSE vs.votes)
+                ELSE [vs.votes EXCEPT ![src] = val]
+  IN IF conflicting /\ ~Claimed(vs, val) /\ ~W("ConflictingVotesBothCounted")
+     THEN [vs |-> [vs EXCEPT !.votes = votes1], added |-> FALSE]                             \* ErrVoteConflictingVotes
+     ELSE LET by1   == vs.by \cup {<<val, src>>}
+              old   == SumPower(ByFor(vs, val))
+              cross == ~IsQuorum(old) /\ IsQuorum(old + PowerOf[src]) /\ vs.maj = None
+          IN [vs |-> [votes |-> IF cross THEN [v \in Vals |-> IF <<val, v>> \in by1 THEN val ELSE votes1[v]] ELSE votes1,
+                      by |-> by1, pm |-> vs.pm, maj |-> IF cross THEN val ELSE vs.maj],
+              added |-> TRUE]
+
+\* VoteSet.SetPeerMaj23: one claim per peer and vote set
+VSClaim(vs, peer, val) ==
+  IF \E c \in vs.pm : c[1] = peer THEN vs ELSE [vs EXCEPT !.pm = vs.pm \cup {<<peer, val>>}]
 
 \* ------------------------------------------------------------------ node state
 NoProp == [r |-> -1, v |-> Nil, pol |-> -1]
@@ -84,7 +109,7 @@ InitNode ==
     pc       |-> [r \in Rounds |-> EmptyVS],
     tracked  |-> {0},         \* rounds that have a RoundVoteSet (HeightVoteSet.roundVoteSets)
     catchup  |-> [p \in Vals |-> 0],   \* HeightVoteSet.peerCatchupRounds sizes
-    lastCommit |-> [r |-> -1, votes |-> EmptyVS],   \* cs.LastCommit: the precommits of the commit round
+    lastCommit |-> [r |-> -1, votes |-> [v \in Vals |-> None]],   \* cs.LastCommit: the precommits of the commit round
     decision |-> Nil,         \* block saved by finalizeCommit
     panic    |-> "none",      \* reason if the code would panic
     stuck    |-> FALSE,       \* left the modelled rounds
@@ -112,7 +137,7 @@ TryFinalizeCommit(s) ==
   ELSE IF s.propBlock # maj THEN s
   ELSE IF ~Valid(maj) /\ ~W("CommitSkipsValidate") THEN Panic(s, "committed an invalid block")
   ELSE \* SaveBlock, WAL end-height, ApplyBlock, updateToState (height+1, round 0, NewHeight), scheduleRound0
-       Sched([s EXCEPT !.decision = maj, !.lastCommit = [r |-> s.commitR, votes |-> s.pc[s.commitR]], !.height = 2, !.round = 0, !.step = StNewHeight,
+       Sched([s EXCEPT !.decision = maj, !.lastCommit = [r |-> s.commitR, votes |-> s.pc[s.commitR].votes], !.height = 2, !.round = 0, !.step = StNewHeight,
                        !.prop = NoProp, !.propBlock = Nil, !.partsHdr = Nil,
                        !.lockedR = -1, !.lockedV = Nil, !.validR = -1, !.validV = Nil,
                        !.ttp = FALSE, !.commitR = -1,
@@ -229,18 +254,15 @@ AddVote(s, t, r, src, val, peer) ==
       s1 == IF known THEN s
             ELSE IF canCatch THEN [s EXCEPT !.tracked = s.tracked \cup {r}, !.catchup[peer] = s.catchup[peer] + 1]
             ELSE s
-      vs == IF t = "prevote" THEN s1.pv[r] ELSE s1.pc[r]
+      a  == VSAdd(IF t = "prevote" THEN s1.pv[r] ELSE s1.pc[r], src, val)
   IN IF ~known /\ ~canCatch THEN [s |-> s, added |-> FALSE]            \* ErrGotVoteFromUnwantedRound
-     ELSE IF vs[src] # None /\ ~W("ConflictingVotesBothCounted") THEN
-          \* duplicate, or conflicting (ErrVoteConflictingVotes; no peerMaj23 is ever set by the
-          \* drivers).  VoteSet.addVerifiedVote nevertheless REPLACES the validator's entry in
-          \* votes[] when the conflicting vote is for the block that already has the majority.
-          IF vs[src] # val /\ Maj23(vs) = val
-          THEN [s |-> IF t = "prevote" THEN [s1 EXCEPT !.pv[r][src] = val] ELSE [s1 EXCEPT !.pc[r][src] = val],
-                added |-> FALSE]
-          ELSE [s |-> s1, added |-> FALSE]
-     ELSE [s |-> IF t = "prevote" THEN [s1 EXCEPT !.pv[r][src] = val] ELSE [s1 EXCEPT !.pc[r][src] = val],
-           added |-> TRUE]
+     ELSE [s |-> IF t = "prevote" THEN [s1 EXCEPT !.pv[r] = a.vs] ELSE [s1 EXCEPT !.pc[r] = a.vs], added |-> a.added]
+
+\* HeightVoteSet.SetPeerMaj23 (the reactor calls it on a VoteSetMaj23Message): no step logic runs
+HandleClaim(s, t, r, peer, val) ==
+  IF Dead(s) \/ s.height # 1 \/ ~(r \in s.tracked) THEN s
+  ELSE IF t = "prevote" THEN [s EXCEPT !.pv[r] = VSClaim(s.pv[r], peer, val)]
+  ELSE [s EXCEPT !.pc[r] = VSClaim(s.pc[r], peer, val)]
 
 \* cs.addVote, prevote branch (after the vote was added)
 AfterPrevote(me, s, vr) ==
@@ -298,6 +320,8 @@ HandleMsg(me, s, m, peer) ==
   IF Dead(s) \/ s.height # 1 THEN s
   ELSE IF m.t = "proposal" THEN HandleProposal(s, m.src, m)
   ELSE IF m.t = "block" THEN HandleBlock(s, m.v)
+  ELSE IF m.t = "claim_prevote" THEN HandleClaim(s, "prevote", m.r, peer, m.v)
+  ELSE IF m.t = "claim_precommit" THEN HandleClaim(s, "precommit", m.r, peer, m.v)
   ELSE HandleVote(me, s, m.t, m.r, m.src, m.v, peer)
 
 ClearOut(s) == [s EXCEPT !.out = << >>]
